@@ -1,7 +1,7 @@
 (** C02 - re-encoding the events of a decodable input reproduces the input bytes.
     Statement file: theorem statements, [exact], Print Assumptions only. *)
 From Coq Require Import ZArith List Bool.
-From TV Require Import Layout.Types Base.Bytes Model.Monad Model.Ints Model.Message Model.Pump Proofs.Account Proofs.Tiling.
+From TV Require Import Layout.Types Base.Bytes Model.Monad Model.Ints Model.Message Model.Pump Proofs.Account Proofs.Tiling Proofs.WTiling Proofs.StreamTiling.
 Import ListNotations.
 Open Scope Z_scope.
 
@@ -34,3 +34,16 @@ Theorem C02_completed_runs_are_tiled :
                               (exists cs, tiled tr cs) \/ sizewarn tr.
 Proof. exact tiles_dec_root. Qed.
 Print Assumptions C02_completed_runs_are_tiled.
+
+(** the stream root, both modes, every table set and every input: an accepted stream whose reported problems (if any)
+    are out-of-range values is tiled by its events - the part of the processor's trace before the message root at
+    which the pump ended the stream is tiled, its chunks concatenate to the whole input, and the emitted events are
+    exactly the events of that part *)
+Theorem C02_accepted_stream_is_tiled_by_its_events :
+  forall T abort input evs,
+    decode T abort RStream input = (evs, OAccepted) ->
+    existsb is_size_warning (map fst evs) = false ->
+    exists tr0 cs, tiled tr0 cs /\ List.concat cs = input /\ map fst evs = filter not_rd tr0 /\
+                   exists e rest, fst (fst (dec_root T abort RStream (init_st input))) = tr0 ++ Ev e :: rest /\ is_root_event e = true.
+Proof. exact accepted_stream_is_tiled. Qed.
+Print Assumptions C02_accepted_stream_is_tiled_by_its_events.
